@@ -95,7 +95,9 @@ def run(chk):
         for denc in debpkg.ENCODINGS:
             for _ in range(chk.n(2, 20)):
                 extras = rng.choice([[], [(b"_gpgorigin", b"sig")], [(b"unknown-member", b"x" * 3), (b"_underscore", b"")]])
-                pkgs.append(debpkg.build(chk, rng, cenc, denc, extras=extras))
+                # deb(5): readers must ignore further lines after the version line
+                binary = rng.choice([b"2.0\n", b"2.0\n", b"2.0\nfuture extension line\n", b"2.0\n\n", b"2.0\nx"])
+                pkgs.append(debpkg.build(chk, rng, cenc, denc, extras=extras, binary=binary))
     pkgs += dpkg_deb_packages(chk, rng)
     bufs = [b for b, _ in pkgs]
     tables, _ = oracle_args(chk, bufs)
@@ -127,7 +129,8 @@ def run(chk):
     bi = chk.run_impl([("debload", [b]) for b in bbufs]); bm = chk.run_model([("debload", [b] + t) for b, t in zip(bbufs, tables)])
     chk.compare("malformed-packages", [("debload", [b] + t) for b, t in zip(bbufs, tables)], bi, bm, nontrivial=lambda c, r: True)
     for (b, why), i in zip(bad, bi):
-        if i != "err":
+        # "2.1\n" has major version 2: the property does not demand its rejection, so it is compared with the model only
+        if i != "err" and why != "format version %r" % b"2.1\n":
             chk.violate({"kind": "property", "case": lib.show_case(("debload", [b"<%d bytes>" % len(b)])), "impl": i[:300],
                          "explanation": "a package that must be rejected (%s) was loaded" % why})
     # the same bytes always give the same result
